@@ -249,11 +249,23 @@ func ruleI3(w *World, r *Report) {
 			if !ok {
 				return
 			}
-			mc, ok := df.Common().Value.(*ssa.MakeClosure)
-			if !ok {
+			// the deferred function: a closure, a literal without free variables, or a named
+			// library function / method
+			var cl *ssa.Function
+			switch v := df.Common().Value.(type) {
+			case *ssa.MakeClosure:
+				cl, _ = v.Fn.(*ssa.Function)
+			case *ssa.Function:
+				cl = v
+			}
+			if cl == nil {
+				if sc := df.Common().StaticCallee(); sc != nil && w.InLib(sc) {
+					cl = sc
+				}
+			}
+			if cl == nil || len(cl.Blocks) == 0 {
 				return
 			}
-			cl := mc.Fn.(*ssa.Function)
 			closesItems, drains := false, false
 			eachInstr(cl, func(x ssa.Instruction) {
 				if c, ok := x.(*ssa.Call); ok {
